@@ -88,6 +88,10 @@ def commute(case, build, what="model", post=None):
         warnings.simplefilter("ignore")
         S = build(weights(case, True))
         D = build(weights(case, False))
+        if case.get("simplify") and hasattr(S, "simplify"):
+            # the README workflow may tidy the symbolic model first; simplify() changes how coefficients are written,
+            # not the model (terms, constraints, ancilla counter)
+            S.simplify()
     snap = snapshot(S)
     sub = do_subs(S, case)
     if snapshot(S) != snap:
@@ -198,8 +202,11 @@ def _gen_compare(ctx, spin, salt):
             if k and rng.random() < 0.6:
                 obj[k] = -rng.choice(VALUES) * abs(cons[0][1][k])
         made += 1
-        yield {"obj": obj, "cons": cons, "values": {nm: rng.choice(VALUES) for nm in names},
-               "form": rng.choice(["dict", "pair"])}
+        case = {"obj": obj, "cons": cons, "values": {nm: rng.choice(VALUES) for nm in names},
+                "form": rng.choice(["dict", "pair"])}
+        if made % 3 == 0:
+            case["simplify"] = True
+        yield case
 
 
 def _nontrivial_compare(case):
@@ -304,9 +311,20 @@ def _gen_reduce(ctx):
                 cons.append((rel, P, "mu", log, None))
         meth, deg = rng.choice(REDUCE)
         made += 1
-        yield {"type": t, "terms": terms, "cons": cons, "method": meth, "deg": deg,
-               "values": {"lam": rng.choice(VALUES)}, "mu": rng.choice(VALUES),
-               "form": rng.choice(["dict", "pair"])}
+        case = {"type": t, "terms": terms, "cons": cons, "method": meth, "deg": deg,
+                "values": {"lam": rng.choice(VALUES)}, "mu": rng.choice(VALUES),
+                "form": rng.choice(["dict", "pair"])}
+        if cons and made % 2:
+            case["penalty"] = "default"
+        yield case
+    # the README workflow literally: objective of degree 3 with mixed-sign parts, a constraint with the symbolic
+    # weight whose square touches the high-degree term, default reduction penalty
+    a, b, c3 = labels[0], labels[1], labels[2]
+    for t in ("PCBO", "PCSO"):
+        for meth, deg in REDUCE:
+            for cval in list(VALUES) + [2, 4]:
+                yield {"type": t, "terms": {(a, b, c3): -5, (a,): 1}, "cons": [("eq", {(a,): 1, (b, c3): 1, (): -1}, "lam", True, None)],
+                       "method": meth, "deg": deg, "values": {"lam": cval}, "mu": 1, "form": "dict", "penalty": "default"}
 
 
 def _nontrivial_reduce(case):
@@ -330,13 +348,32 @@ def check_reduce(case):
         H = cls_of(case["type"])()
         for k, v in case["terms"].items():
             H[k] += v
+        default = case.get("penalty") == "default"
         for rel, P, wname, log, bounds in case["cons"]:
-            add_constraint(H, rel, P, mu, log, bounds)
+            add_constraint(H, rel, P, w["lam"] if default else mu, log, bounds)
         f = getattr(H, case["method"])
+        if default:
+            # the symbol sits in the constraint weight; the reduction uses the library's default penalty
+            return f() if case["deg"] is None else f(deg=case["deg"])
         if case["deg"] is None:
             return f(lam=w["lam"])
         return f(deg=case["deg"], lam=w["lam"])
-    post = (lambda M: M.subs({mu: case["mu"]})) if case["cons"] else None
+    if case.get("penalty") == "default":
+        # with the symbol in the model's own coefficients a term may vanish at c; the two builds then reduce
+        # different models (other pairs may be chosen): not compared, as stated above
+        def pre(w):
+            H = cls_of(case["type"])()
+            for k, v in case["terms"].items():
+                H[k] += v
+            for rel, P, wname, log, bounds in case["cons"]:
+                add_constraint(H, rel, P, w["lam"], log, bounds)
+            return H
+        with warnings.catch_warnings():
+            warnings.simplefilter("ignore")
+            Hs, Hn = pre(weights(case, True)), pre(weights(case, False))
+        if set(dict(do_subs(Hs, case))) != set(dict(Hs)) or set(dict(Hs)) != set(dict(Hn)):
+            return Skip("a coefficient of the model vanishes at the substituted value")
+    post = (lambda M: M.subs({mu: case["mu"]})) if case["cons"] and case.get("penalty") != "default" else None
     return commute(case, build, "%s.%s" % (case["type"], case["method"]), post)
 
 
